@@ -10,6 +10,7 @@ mod ir;
 mod leafgen;
 mod poolrun;
 mod publishrun;
+mod tplrun;
 
 use plonky2::field::types::{Field, PrimeField64};
 use plonky2::iop::generator::GeneratedValues;
@@ -807,6 +808,7 @@ fn main() {
         "call" => cmd_call(&args[2..]),
         "poolrun" => poolrun::run(&args[2..]),
         "publishrun" => publishrun::run(&args[2..]),
+        "tplrun" => tplrun::run(&args[2..]),
         _ => panic!("usage: csx-emit emit|replay ..."),
     }
 }
